@@ -752,7 +752,9 @@ func (r *yieldRewriter) rewriteBreakContinues(body *ast.BlockStmt) {
 				r.assert(n.Label == nil, n, "continue with label not supported")
 				return X.Return(r.CallContinue())
 			case token.GOTO:
-				r.assert(false, n, "goto not supported")
+				// generated thunks have no position, goto in user's func lit is trival
+				userFunc := funcLitStack.top() != nil && funcLitStack.top().Type.Func.IsValid()
+				r.assert(userFunc, n, "goto not supported")
 			case token.FALLTHROUGH:
 				if inSwitch() {
 					return
